@@ -7,9 +7,10 @@ function, a missing `&`, a dropped argument, swapped branches, another pattern .
 item WITHOUT its derive_where attributes plus each impl is compiled by rustc (`cargo check`, no macro involved).
 
 Failure (the typing rules would be unsound, so `C02_well_typed` would not transfer to rustc):
-    the model says well-typed, rustc reports a typing error (E0308, E0061, E0599, E0425, E0023, E0063, ...).
+    the model says well-typed (which includes: every `match` is exhaustive), rustc reports a typing or
+    exhaustiveness error (E0308, E0061, E0599, E0425, E0023, E0063, E0004, ...).
 Not failures, counted in the report:
-    * rustc errors outside typing: exhaustiveness (E0004: the evaluator's `stuck`), borrow checking (E05xx),
+    * rustc errors outside typing: borrow checking (E05xx),
       trait obligations (E0277: `DW/Syntactic4.lean`), const-evaluation (E0080), unused/unreachable lints;
     * the model is stricter than rustc (two fields of the same Rust type are different types for the model; `&&T` where
       auto-referenced impls exist): `model ill-typed, rustc accepts`.
@@ -32,13 +33,13 @@ EXEC = os.path.join(runner.VERIF, 'exec')
 ZCFGS = ('zeroize', 'zod', 'safe-zod')
 
 # rustc error codes that are about types, names, arity and patterns: what DW/Typing.lean models
-TYPING = {'E0782', 'E0308', 'E0061', 'E0599', 'E0614', 'E0605', 'E0606', 'E0604', 'E0600', 'E0369', 'E0023', 'E0026', 'E0027',
+TYPING = {'E0004', 'E0005', 'E0782', 'E0308', 'E0061', 'E0599', 'E0614', 'E0605', 'E0606', 'E0604', 'E0600', 'E0369', 'E0023', 'E0026', 'E0027',
           'E0063', 'E0560', 'E0559', 'E0532', 'E0164', 'E0425', 'E0433', 'E0412', 'E0282', 'E0283', 'E0107', 'E0609',
           'E0610', 'E0618', 'E0070', 'E0067', 'E0029', 'E0054', 'E0529', 'E0530', 'E0533', 'E0053', 'E0050', 'E0186',
           'E0185', 'E0407', 'E0046', 'E0069', 'E0317', 'E0608', 'E0040', 'E0423', 'E0424', 'E0434', 'E0435', 'E0620',
           'E0607', 'E0117', 'E0200', 'E0614', 'E0616', 'E0615', 'E0571', 'E0572', 'E0600'}
-# outside typing: exhaustiveness, borrow checking / moves, trait obligations, const evaluation, unsafety, coherence of Copy
-OUTSIDE = {'E0004', 'E0005', 'E0382', 'E0499', 'E0502', 'E0505', 'E0506', 'E0507', 'E0508', 'E0509', 'E0596', 'E0597',
+# outside typing: borrow checking / moves, trait obligations, const evaluation, unsafety, coherence of Copy
+OUTSIDE = {'E0382', 'E0499', 'E0502', 'E0505', 'E0506', 'E0507', 'E0508', 'E0509', 'E0596', 'E0597',
            'E0716', 'E0133', 'E0277', 'E0080', 'E0015', 'E0204', 'E0184', 'E0119', 'E0658', 'E0001', 'E0170', 'E0381',
            'E0384', 'E0503', 'E0594', 'E0713', 'E0732', 'E0081', 'E0275'}
 
